@@ -667,6 +667,16 @@ def pstr_boundary_cases(prefix_id, thorough):
     sizes = [(1, n) for n in (0, 1, 2, 255, 256, 257, 258, 300)]
     sizes += [(2, n) for n in (0, 1, 2, 3, 4)]
     sizes += [(2, n) for n in ((65536, 65537, 65538, 65539, 65540) if thorough else (65537, 65538, 65539))]
+    # sources longer than the prefix type can count, into small and large payloads
+    for p, srclens in ((1, (255, 256, 257, 300, 511, 512, 513)), (2, (65535, 65536, 65537, 65546))):
+        for payload in (3, 10, 200):
+            for n in srclens:
+                src = (b'ab\xc3\xa9' * (n // 4 + 1))[:n]
+                while src and (src[-1] & 0xC0) == 0x80 or (src and src[-1] >= 0xC0):
+                    src = src[:-1]
+                ops = ['new', 'copy %s' % hx(b'zzzzzzzzzzzz'), 'copy %s' % hx(src), 'asstr', 'ro']
+                out.append(Case('%s%d' % (prefix_id, cid), 'pstr', {'p': p, 'size': p + payload}, ops, {'stream': 'B'}))
+                cid += 1
     for p, size in sizes:
         ops = ['new', 'size', 'asstr', 'copy %s' % hx(b'hello'), 'asstr', 'ro', 'size']
         out.append(Case('%s%d' % (prefix_id, cid), 'pstr', {'p': p, 'size': size}, ops, {'stream': 'B'}))
